@@ -197,7 +197,10 @@ func (w *hijackWatch) receive() {
 			}
 			asts, ok := event.Object.(*asv1.StatefulSet)
 			if !ok {
-				panic("unreachable")
+				// e.g. a watch.Error event carries a *metav1.Status:
+				// relay it to the consumer unchanged
+				w.result <- event
+				continue
 			}
 			sts, err := ToBuiltinStatefulSet(asts)
 			if err != nil {
